@@ -98,6 +98,7 @@ func c09LifecycleCase(t *rapid.T) {
 	closed := false
 	defer func() {
 		w.abort()
+		synctest.Wait()
 		if !closed {
 			w.mu.Lock()
 			w.shutdown = true
